@@ -155,7 +155,9 @@ func (s *rangeProofStructure) verifyProofStructure(proof RangeProof) bool {
 	// Validate size of secret results
 	rangeLimit := new(big.Int).Lsh(big.NewInt(1), s.l2+rangeProofEpsilon+2)
 	for _, val := range proof.Results[s.rangeSecret] {
-		if val.Cmp(rangeLimit) >= 0 {
+		// (honest results are never negative; without the lower bound any secret above the range
+		// would be "shown" to be inside it by negative results)
+		if val.Sign() < 0 || val.Cmp(rangeLimit) >= 0 {
 			return false
 		}
 	}
